@@ -399,12 +399,16 @@ func (r *Registry) specElemType(pkg *packages.Package, t *SType) types.Type {
 // assigned, indexed-assigned or address-taken in their package: their length is a known constant.
 var finalGlobalLen = map[string]int64{}
 
+// finalGlobalNonNil: package-level error variables created by fmt.Errorf / errors.New and never reassigned.
+var finalGlobalNonNil = map[string]bool{}
+
 func (r *Registry) computeFinalGlobals() {
 	for path, p := range r.pkgs {
 		if !strings.HasPrefix(path, modulePath) || p.TypesInfo == nil {
 			continue
 		}
 		cand := map[*types.Var]int64{}
+		errCand := map[*types.Var]bool{}
 		for _, f := range p.Syntax {
 			for _, d := range f.Decls {
 				gd, ok := d.(*ast.GenDecl)
@@ -417,6 +421,14 @@ func (r *Registry) computeFinalGlobals() {
 						continue
 					}
 					for i, n := range vs.Names {
+						if call, ok := vs.Values[i].(*ast.CallExpr); ok {
+							// error values created once at package initialisation: non-nil if never reassigned
+							if fn := calleeDisplayName(call, p.TypesInfo); fn == "fmt.Errorf" || fn == "errors.New" {
+								if v, _ := p.TypesInfo.Defs[n].(*types.Var); v != nil {
+									errCand[v] = true
+								}
+							}
+						}
 						cl, ok := vs.Values[i].(*ast.CompositeLit)
 						if !ok {
 							continue
@@ -441,7 +453,7 @@ func (r *Registry) computeFinalGlobals() {
 				}
 			}
 		}
-		if len(cand) == 0 {
+		if len(cand) == 0 && len(errCand) == 0 {
 			continue
 		}
 		kill := func(e ast.Expr) {
@@ -462,6 +474,7 @@ func (r *Registry) computeFinalGlobals() {
 			if id, ok := e.(*ast.Ident); ok {
 				if v, ok := p.TypesInfo.ObjectOf(id).(*types.Var); ok {
 					delete(cand, v)
+					delete(errCand, v)
 				}
 			}
 		}
@@ -493,6 +506,9 @@ func (r *Registry) computeFinalGlobals() {
 		}
 		for v, n := range cand {
 			finalGlobalLen["g:"+v.Pkg().Path()+"."+v.Name()] = n
+		}
+		for v := range errCand {
+			finalGlobalNonNil["g:"+v.Pkg().Path()+"."+v.Name()] = true
 		}
 	}
 }
